@@ -6,7 +6,10 @@ cd /repo || exit 2
 if ! git diff --quiet; then echo "/repo working tree not clean"; exit 2; fi
 if ! git apply --check "$P" 2>/dev/null; then echo "patch does not apply: $P"; exit 2; fi
 git apply "$P"
-trap 'git -C /repo checkout -- . ; git -C /repo clean -fdq -- tests 2>/dev/null' EXIT
+# evidence files are rewritten by every run: keep the clean-tree ones (a run on a patched tree is not evidence)
+SAVE=$(mktemp -d)
+cp /verif/evidence/*.json "$SAVE"/ 2>/dev/null
+trap 'git -C /repo checkout -- . ; git -C /repo clean -fdq -- tests 2>/dev/null; cp "$SAVE"/*.json /verif/evidence/ 2>/dev/null; rm -rf "$SAVE"' EXIT
 for prop in "$@"; do
   out=$(cd /verif && ./check run "$prop" --tier quick 2>&1)
   rc=$?
